@@ -234,6 +234,18 @@ func engineAnyu(rep *Report) {
 						}
 						corrupt = append(corrupt, b)
 					}
+					// legal but non-canonical encodings of varint fields (values above one byte for bools, padded varints)
+					nvar := 0
+					for fi := 0; fi < d.Fields().Len() && nvar < 3; fi++ {
+						fd := d.Fields().Get(fi)
+						if fd.IsList() || fd.IsMap() || wireTypeOfKind(fd.Kind()) != protowire.VarintType {
+							continue
+						}
+						nvar++
+						tag := protowire.AppendTag(nil, fd.Number(), protowire.VarintType)
+						corrupt = append(corrupt, append(append([]byte{}, tag...), 0x80, 0x01), append(append([]byte{}, tag...), 0x81, 0x80, 0x00),
+							append(append(append([]byte{}, tag...), 0x80, 0x01), base...))
+					}
 					// a map entry whose key field occurs twice, the second time with another wire type
 					for fi := 0; fi < d.Fields().Len(); fi++ {
 						if fd := d.Fields().Get(fi); fd.IsMap() {
@@ -299,6 +311,11 @@ func engineAnyu(rep *Report) {
 						}
 						if refErr != nil {
 							rep.Count("C16", "values-rejected-by-reference-only-on-strictness", 1)
+							continue
+						}
+						if e1 != nil {
+							// framing intact, nothing a strict and a lenient parser differ on, the reference accepts it
+							rep.Violate("C16", "anyu/valid-value-rejected", tn, fmt.Sprintf("the value %s is a valid encoding (the reference parser and the file-registry path accept it) but Unpack through the type registry fails: %v", hx(cv), e1), rcc)
 							continue
 						}
 						if e1 == nil && e2 == nil && !bytes.Equal(canonOf(m1), canonOf(m2)) {
